@@ -53,6 +53,7 @@ def run(tier):
     seen_shapes = set()
     eof_bad = []
     addr_bad = []
+    missing = []
     empty_ok = None
     for p in oks:
         v = p.state.cells.get(('L', 'f0', rl))
@@ -68,9 +69,6 @@ def run(tier):
         ln = sx.dom_show(p.state.doms.get(sx.S("segment*#len", 64, False), sx.dom_full(64, False)))
         if ln == "0":
             empty_ok = names == ["EndOfFile"]
-        if shape in seen_shapes:
-            continue
-        seen_shapes.add(shape)
         # chunk loops on this path
         loops = []
         for ev in p.events:
@@ -78,6 +76,19 @@ def run(tier):
                 ch = [a for a in ev[2] if a[0] == "chunks"]
                 if ch and (ev[1], ch[0][1]) not in loops:
                     loops.append((ev[1], ch[0][1]))
+        # completeness: a chunk the innermost loop took from the image on this path must come out as a Data record
+        innermost = [src for src, n in loops if not any(o.startswith(src + "[chunk i]") for o, _ in loops if o != src)]
+        truths = {sx.show(e): t for e, t in p.conds}
+        for src in innermost:
+            if truths.get("more(%s)" % src) is True:
+                vals = [r[3][1] for r, nm in zip(recs, names) if nm == "Data"]
+                got = any(v_[0] == 'vec' and len(v_[2]) == 1 and v_[2][0][0] == 'blob' and str(v_[2][0][1]).startswith(src + "[chunk i]") for v_ in vals)
+                if not got:
+                    others = [sx.show(e) + ("" if t else " is false") for e, t in p.conds if not re.search(r"more\d*\(|#len|create_object", sx.show(e))][-2:]
+                    missing.append("a chunk taken from %s is not written as a Data record on the path where %s" % (src, " and ".join(others) or "the loop continues"))
+        if shape in seen_shapes:
+            continue
+        seen_shapes.add(shape)
         panic_conds = {e[5] for e in p.events if e[0] == 'may-panic'}
         esa = None
         for r, nm in zip(recs, names):
@@ -166,6 +177,8 @@ def run(tier):
             rep.count("index tuples checked", rep.analysed.get("index tuples checked", 0) + checked)
     rep.ob("C07.eof", not eof_bad, "every path ends its record list with exactly one EndOfFile" if not eof_bad else
            "EndOfFile discipline violated: record lists %s" % eof_bad[:2])
+    rep.ob("C07.complete", not missing, "every 16-byte chunk the record loop takes from the image is written as one Data record (no path skips a chunk)" if not missing else
+           missing[0], detail=missing[:3])
     rep.ob("C07.empty", empty_ok is True, "an empty image yields only the EndOfFile record" if empty_ok else "empty image: record list is not [EndOfFile]")
     rep.ob("C07.address", not addr_bad and ndata > 0,
            "every Data record's effective address equals the chunk's position in the image for all accepted chunk indices (images up to %d bytes and beyond)" % limit if not addr_bad and ndata else
